@@ -93,6 +93,23 @@ def observe_conv(fx, np, props, ts, td, codes, route, smodes, dmodes, shape=None
                 o = Fxp(0.3, like=ref, rounding={'trunc': 'ceil', 'ceil': 'floor'}.get(dmodes[0], 'trunc'),
                         overflow='wrap' if dmodes[1] == 'saturate' else 'saturate', op_sizing='same')
                 o.config.shifting = 'trunc'
+                # ... and objects derived from `ref` by the OTHER deriving routes (the like() method, deepcopy, ~, indexing of an
+                # array made like it), each reconfigured and reset
+                other_r = {'trunc': 'ceil', 'ceil': 'floor'}.get(dmodes[0], 'trunc')
+                other_o = 'wrap' if dmodes[1] == 'saturate' else 'saturate'
+                for make in (lambda: Fxp(0.3, True, 9, 3).like(ref), lambda: ref.deepcopy(), lambda: ~ref if ref.val is not None else None,
+                             lambda: Fxp([0.3, 0.6], like=ref)[0], lambda: Fxp(ref, like=ref)):
+                    try:
+                        d_ = make()
+                        if d_ is None:
+                            continue
+                        d_.config.rounding = other_r
+                        d_.config.overflow = other_o
+                        d_.rounding = other_r
+                        d_(2.0 ** (int(ref.n_word) - int(ref.n_frac) + 2) + 0.3 * 2.0 ** -int(ref.n_frac))
+                        d_.reset()
+                    except Exception:
+                        pass
                 return o
             if route == 'like=':
                 tmpl = Fxp(None, bool(td[0]), td[1], td[2], **kw)
